@@ -72,13 +72,16 @@ ASSUMPTIONS = [
     "ellipse_full_sound",
 ]
 OPEN = [
-    "termination of BSpline / ConstructionEllipse flattening is conditional only (curve evaluation is outside the model)",
+    "termination of BSpline / ConstructionEllipse flattening is proved for every evaluation function with a Lipschitz modulus "
+    "(bspline_terminates_lipschitz, ellipse_terminates_lipschitz, bspline_flattening_total, ellipse_flattening_total); that the real B-spline / ellipse evaluators "
+    "HAVE such a modulus (C13: basis functions, cos/sin) is not proved here",
     "sagitta_bound / arc_flattening_sound are about the real-valued formulas (incl. the clamp min(x, 1.0) of fix 677c29f93); float rounding is "
     "covered by the oracle only (sagitta within a few ulps of r, 2r)",
     "make_path: the construction tools in front of the builders (ConstructionEllipse.from_arc, cubic_bezier_from_ellipse, bezier_decomposition, "
     "bulge_to_arc trigonometry, OCS -> WCS) are not modelled: the curves they return are inputs of the model (recorded in X8/X9), their geometry "
     "is checked by oracle O5 (and C13 for the bulge laws)",
-    "to_hatches / to_splines_and_polylines / nesting: oracle only; path -> 3D polyline -> path and path -> LWPOLYLINE/2D polyline -> path "
+    "to_splines_and_polylines / nesting: oracle only; closed variants path -> closed POLYLINE / LWPOLYLINE / HATCH polyline boundary -> path "
+    "are proved (polyline_closed_roundtrip, polyline2d_closed_roundtrip); path -> 3D polyline -> path and path -> LWPOLYLINE/2D polyline -> path "
     "are proved (polyline_roundtrip, polyline2d_roundtrip), the loops of HATCH edge paths are proved closed single paths (edgeLoops_closed)",
     "known findings C14-7 (closed curves reversed by add_bezier4p; model: closed_chain_added_reversed) and C14-8 (full circle LWPOLYLINE within "
     "isclose tolerance loses one half) remain: the candidate fix is not test-clean",
